@@ -1,6 +1,6 @@
 (* C04 — speculation is bounded by the prediction window; lockstep never speculates.
    Statements only (same model and conventions as props/C02.v). *)
-From GGRS Require Import Base Consts Queue Sync P2P Session SessionProofs SessionProgress.
+From GGRS Require Import Base Consts Queue Sync P2P Session SessionProofs SessionProgress SessionSparse SessionSparse2.
 Open Scope Z_scope.
 
 (* Every LoadGameState of every call names a frame at most max_prediction frames behind the frame
@@ -88,3 +88,39 @@ Proof.
   inversion HQ; subst. constructor; [|eapply IH; eassumption].
   match goal with H : QI _ _ _ _ _ |- _ => pose proof (qi_conf _ _ _ _ _ H) end. lia.
 Qed.
+
+(* The same for sparse saving, where the window also bounds how far the one saved state may fall behind:
+   after ANY run inside the space, last_saved_frame is unset only before the first frame, and otherwise
+   lies between the last confirmed frame and the current frame, at most max_prediction frames back -
+   so the LoadGameState a rollback issues (always of last_saved_frame) is inside the window. *)
+Theorem C04_window_invariant_in_space_sparse :
+  forall (predict : Z -> Z) (n w d : Z) (kinds : list pkind) (eps : list (list Z)) (nspec : nat) (ops : list sop) p outs,
+  1 <= w -> 0 <= d -> w + d + 3 <= INPUT_QUEUE_LENGTH -> 0 < n -> Z.of_nat (length kinds) = n -> players_only kinds ->
+  srun_in predict (session_start n w true d kinds eps nspec) ops = Ok (p, outs) ->
+  s_current (ps_sync p) <= Z.max 0 (s_last_confirmed (ps_sync p)) + w /\
+  Forall (fun st => s_last_confirmed (ps_sync p) <= cs_last st) (ps_status p) /\
+  ((s_last_saved (ps_sync p) = NULL /\ s_current (ps_sync p) = 0) \/
+   (s_last_confirmed (ps_sync p) <= s_last_saved (ps_sync p) <= s_current (ps_sync p) /\
+    0 <= s_last_saved (ps_sync p) /\ s_current (ps_sync p) - s_last_saved (ps_sync p) <= w)).
+Proof.
+  intros predict n w d kinds eps nspec ops p outs Hw Hd Hcap Hn Hlen Hpl H.
+  destruct (sparse_run_in_space predict ops _ _ (game0 w) w d (QS_start_gen true n w d kinds eps nspec Hw Hd Hcap Hn Hlen Hpl)
+              (JS_start n w d kinds eps nspec Hw) (SX_start n w d kinds eps nspec)) as [E|(p' & outs' & gs & g & E1 & _ & _ & HQS & _ & HSX)]; [congruence|].
+  rewrite H in E1. injection E1 as <- <-.
+  destruct (qs_frames _ _ _ _ HQS) as (F1 & F2 & F3). destruct HSX as [X1 X2 X3 X4 X5].
+  split; [exact F3|]. split.
+  - pose proof (qs_qs _ _ _ _ HQS) as HQ. pose proof (qs_last _ _ _ _ HQS) as HL.
+    revert HQ HL. generalize (s_queues (ps_sync p)) as qs. generalize (ps_status p) as st. generalize gs as gs0.
+    induction gs0 as [|g0 gs0 IH]; intros st qs HQ HL; inversion HL; subst; [constructor|].
+    inversion HQ; subst. constructor; [|eapply IH; eassumption].
+    match goal with H : QI _ _ _ _ _ |- _ => pose proof (qi_conf _ _ _ _ _ H) end. lia.
+  - destruct (Z.eq_dec (s_last_saved (ps_sync p)) NULL) as [En|En]; [left; split; [exact En|exact (X2 En)]|right].
+    unfold NULL in En. lia.
+Qed.
+
+(* non-vacuity: a starved sparse-saving peer stops after w frames, its saved frame still 0 *)
+Example C04_demo_sparse :
+  exists p outs, srun_in (fun x => x) (session_start 2 2 true 0 [KLocal; KRemote 0] [[1]] 0)
+                   [SLocal 0 1; SAdvance; SLocal 0 1; SAdvance; SLocal 0 1; SAdvance; SLocal 0 1; SAdvance] = Ok (p, outs) /\
+                 s_current (ps_sync p) = 2 /\ s_last_saved (ps_sync p) = 0.
+Proof. eexists. eexists. split; [|split]; vm_compute; reflexivity. Qed.
